@@ -158,6 +158,12 @@ def big_layers(g):
     return h["_layers"]
 
 
+def deep_dfs(g, strategy):
+    """a DFS path on the big affine graphs is tens of thousands of states long and the recording visitor re-executes the
+    model along the path of every visit (quadratic): such runs go without the visitor, the model counts evaluations"""
+    return strategy == "dfs" and g["family"] == "affine" and g["n"] >= 20000
+
+
 def big_props(rng):
     return [dict(kind="always", name="keep", sat=[], mode="all", m=0, r=0),
             dict(kind="sometimes", name="never", sat=[], mode="none", m=0, r=0)]
@@ -281,9 +287,13 @@ def c05(res):
         out = []
         large = g["n"] > 20000
         for s in ("bfs", "dfs"):
+            # (a DFS path on the big affine graphs is tens of thousands of states long and the recording visitor re-executes
+            #  the model along the path of every visit: those runs go without the visitor, the model counts evaluations)
+            blind = deep_dfs(g, s)
             for t in ([1, 4, 16] if large else threads):
                 for pz in ((0, 1) if (q or t == 1 or large) else (0, 1, 2)):
-                    out.append(gg.base_cfg(s, t, light=True, market_log=True, perturb=(rng.randint(1, 2 ** 31) if pz else 0), watchdog_ms=60000))
+                    out.append(gg.base_cfg(s, t, light=True, market_log=True, perturb=(rng.randint(1, 2 ** 31) if pz else 0), watchdog_ms=60000,
+                                           no_visitor=blind))
         out.append(gg.base_cfg("ondemand", 2, light=True, market_log=True, watchdog_ms=60000))
         # on-demand with several workers and requests that nobody can serve (not pending / never pending) queued before
         # run_to_completion: every worker must still get to hear of it
@@ -291,7 +301,7 @@ def c05(res):
             out.append(gg.base_cfg("ondemand", t, light=True, market_log=True, watchdog_ms=60000,
                                    requests=[g["n"], 1, max(1, g["n"] - 1), 2, g["n"] // 2 + 1]))
         return out
-    runs, cov2 = checker_runs(res, "C05", graphs, cfgs, ["joined", "edges", "subset", "once", "complete", "verdicts", "stop_reason"], wd, "f4")
+    runs, cov2 = checker_runs(res, "C05", graphs, cfgs, ["joined", "edges", "subset", "once", "complete", "evals_once", "verdicts", "stop_reason"], wd, "f4")
     # insert-if-absent arbitration: a ladder whose two rails are walked side by side by two workers (rendezvous in
     # next_state), every join state being generated by both at the same moment; evaluations are counted by the model
     L = 1200
